@@ -121,6 +121,27 @@ theorem cblock_sends_on_change_only (c : Cfg) (out : Val) (vs : List Val) :
   · exact h.1
   · simp [everyEvs] at h
 
+/-- an accepted FSM transition (InputExp, Timer, any FSM) is exactly ONE output assignment with
+    the value `calc_output()` gives for the new state — also when that value equals the current
+    output: every configured on_every_output event is then sent exactly once, with previous =
+    the output before and value = the computed one; only UNDEF leaves the output alone -/
+theorem fsm_transition_is_one_assignment (c : Cfg) (out cv : Val) :
+    (cv.isUndef = true → fsmTransition c out cv = none) ∧
+    (cv.isUndef = false →
+      fsmTransition c out cv = some (assign .sblock c out cv) ∧
+      ∀ i (hi : i < c.onEvery.length),
+        ((Rec.mk out cv (assign .sblock c out cv)).sends.filter
+            (fun s => s.slot == .every && s.idx == i)).map (fun s => (s.ev, s.previous, s.value))
+          = [(c.onEvery[i], some out, some cv)]) := by
+  refine ⟨fun h => by simp [fsmTransition, h], fun h => ⟨by simp [fsmTransition, h, assign], fun i hi => ?_⟩⟩
+  have := rec_sends_every .sblock c out cv i hi
+  rw [this]
+  have hp := send_pv c.onEvery[i] .every i c.name out cv
+    (Rec.mk out cv (assign .sblock c out cv)).after
+  simp only [Sent.pv, Prod.mk.injEq] at hp
+  simp only [h, everyEvs, Bool.false_eq_true, if_false, List.map_cons, List.map_nil, hp.1, hp.2]
+  rfl
+
 /-! ### order -/
 
 /-- within one assignment of a sequential block: if (and only if) the output changed, every
